@@ -192,8 +192,8 @@ package airgapped
 //@   epilogue $keyringSaved = (result == nil)
 //@   ensures $keyrings <= old($keyrings) + 1
 // saving is refused for no reason of its own (a replayed master-key step writes the same keyring again): an error comes
-// only from reading the salt, encoding, encrypting or writing
-//@   erroronly[C12.keyring.rewrite] Get Bytes encrypt Put
+// only from reading the salt, encoding, encrypting or writing - or because no password is set (repair of D21)
+//@   erroronly[C12.keyring.rewrite] Get Bytes encrypt Put | len(am.encryptionKey) == 0
 //@ func (*Machine).handleStateDkgMasterKeyAwaitConfirmations
 //@   safety C18
 //@   safetykinds nil dereference, index out of range
